@@ -539,8 +539,9 @@ def search_stream(ctx, wtf, n_sessions, opts_fact, colors):
             prev_args = (qclass, qargs)
             parts, fl, envx = gen_flags(rnd)
             joined = " ".join(qargs)
-            # (what validation will make of the words: invalid bytes become U+FFFD, white space is collapsed)
-            hk, hdata = gen_history(rnd, " ".join(joined.encode("utf-8", "surrogateescape").decode("utf-8", "replace").split()))
+            # (what validation will roughly make of the words: each invalid byte becomes '?', white space is collapsed; only a
+            #  hint for pre-filling the history with "the same query" -- the expected answers come from the real code)
+            hk, hdata = gen_history(rnd, " ".join(re.sub("[\udc80-\udcff]", "?", joined).split()))
             if hk == "absent":
                 if os.path.exists(hpath):
                     os.remove(hpath)
